@@ -75,6 +75,13 @@ CLAIMS = {
          "the Tensor result. Bool: all 8 triples in every case. Sampled for the float carriers.",
          "Trusted: Python fractions/decimal as exact arithmetic, vf/gen_pattern.py for patterned operands, Hypothesis. IEEE range effects are skipped and counted, not judged.",
          "DESIGN.md section 5, C08"),
+ 'C09': ("Hypothesis-generated dense, patterned and block-structured linear systems vs. an independent dense least-solution oracle (SCC condensation + Perron-Frobenius classification; Bellman-Ford; reachability); arguments snapshot-compared",
+         "Semiring.solve, PatternedTensor.solve and multi_solve (both transpose values, random absent blocks, dense and patterned blocks, scalar to 2-d block shapes) "
+         "and multi_mv are compared with an oracle that decides, per strongly connected block, whether the sum of A^n b converges (spectral radius <1, =1, >1, "
+         "infinite entries; Viterbi non-positive / zero / positive cycles; Bool reachability) and takes the infinite value where it diverges; arguments must be "
+         "bit-identical afterwards. Entries at spectral radius exactly 1 with inexact intermediates may be inf or >=1e8. Sampled; <=12 unknowns.",
+         "Trusted: vf/oracle_solve.py (self-checked against Kleene iteration), numpy.linalg, vf/gen_pattern.py, Hypothesis. Undecidable spectral radii are skipped and counted.",
+         "DESIGN.md section 5, C09"),
 }
 
 NOT_YET = {}   # id -> reason (filled while the framework is being built)
